@@ -153,8 +153,8 @@ theorem allPlain_implies_len : ∀ xs : List FnArg, allPlain xs = true → (para
 /-- the generated method of one impl-block function calls `Self::f(__impl, p₁, …, pₙ)[.await]` -/
 theorem methodCallsFn_impl_ok (dyn : Bool) (ind : ImplIndirection) (hind : ind.isNone = false) (src : FnItem)
     (tf : TraitFn) (hs : ImplModeSpec dyn src.sig tf) (hid : identOk src.sig.ident = true)
-    (hne : unraw src.sig.ident ≠ "__impl") :
-    methodCallsFn false true src (.fn [] tf.sig (some (delegatingBody .implBlock ind tf))) = true := by
+    (hne : unraw src.sig.ident ≠ "__impl") (as : List Attr := []) :
+    methodCallsFn false true src (.fn as tf.sig (some (delegatingBody .implBlock ind tf))) = true := by
   have hnr := C01.identOk_notRaw _ hid
   obtain ⟨lt, hlt⟩ : ∃ lt, implRecvOf dyn src.sig = implReceiverWith lt := by
     unfold implRecvOf; split <;> exact ⟨_, rfl⟩
@@ -343,8 +343,11 @@ theorem implBlockHeader_ok (o : Opts) (dyn : Bool) (hn : o.noDepsValue = false) 
 theorem T_C07_impl (v : Variant) (attr : Toks) (m : ImplItemIn) (out : Out)
     (hid : (Item.impl m).identsOk = true) (h : expand v attr (.impl m) = .ok out) :
     P_C07 attr (.impl m) out.view = true := by
-  obtain ⟨items, a, fns, tg, depMode, implBlock, h0, h1, h2, h3, h4, rfl⟩ := expandImpl_ok h
+  obtain ⟨items, a, fns0, fns, tg, depMode, implBlock, h0, h1, h2, hfns, h3, h4, rfl⟩ := expandImpl_ok h
+  subst hfns
   have him := genImplBlock_ok h4
+  obtain ⟨im0, h40, _, hep, het, hes, hepr⟩ := genImplBlock_attachCfg h4
+  rw [detectDepMode_attachCfg] at h3
   have hnd : (v.apply a.opts).noDepsValue = false := impl_noDepsValue h1
   have hids : ∀ f ∈ items.filterMap BodyItem.fn?, identOk f.sig.ident = true ∧ unraw f.sig.ident ≠ "__impl" := by
     have hid' : (items.filterMap BodyItem.fn?).all (fun f => identOk f.sig.ident && unraw f.sig.ident != "__impl") = true := by
@@ -352,17 +355,19 @@ theorem T_C07_impl (v : Variant) (attr : Toks) (m : ImplItemIn) (out : Out)
     intro f hf
     have := List.all_eq_true.mp hid' f hf
     simpa using this
-  have hhdr := implBlockHeader_ok (v.apply a.opts) a.dynRef hnd m.attrs m.traitPath m.selfTy _ fns tg depMode implBlock h2 h3 h4
+  have hhdr := implBlockHeader_ok (v.apply a.opts) a.dynRef hnd m.attrs m.traitPath m.selfTy _ fns0 tg depMode im0 h2 h3 h40
+  rw [← hep, ← het, ← hes, ← hepr] at hhdr
   have hind : (if a.dynRef then ImplIndirection.dynamic m.selfTy else .static_ m.selfTy).isNone = false := by
     cases a.dynRef <;> rfl
-  have hbody := analyzeFns_zip (if a.dynRef then .dynamicImpl else .staticImpl) (v.apply a.opts)
+  have hbody := analyzeFns_zip_cfg (if a.dynRef then .dynamicImpl else .staticImpl) (v.apply a.opts)
     (fun s tf => methodCallsFn false true { sig := s }
-      (.fn [] tf.sig (some (delegatingBody .implBlock (if a.dynRef then .dynamic m.selfTy else .static_ m.selfTy) tf))))
-    ((items.filterMap BodyItem.fn?).map (·.sig)) {} tg fns
+      (.fn tf.attrs tf.sig (some (delegatingBody .implBlock (if a.dynRef then .dynamic m.selfTy else .static_ m.selfTy) tf))))
+    (fun _ _ _ => rfl)
+    ((items.filterMap BodyItem.fn?).map (·.sig)) {} tg fns0 (bodyFnAttrs items)
     (by
       intro s hs tg0 tf tg1 han
       obtain ⟨f, hf, rfl⟩ := List.mem_map.mp hs
-      exact methodCallsFn_impl_ok a.dynRef _ hind { sig := f.sig } tf (implModeSpec hnd han) (hids f hf).1 (hids f hf).2)
+      exact methodCallsFn_impl_ok a.dynRef _ hind { sig := f.sig } tf (implModeSpec hnd han) (hids f hf).1 (hids f hf).2 tf.attrs)
     h2
   rw [zipAll_map_left] at hbody
   simp only [P_C07, h1, Out.view, View.items, Out.inside, Out.after, mainImpl?, implsOf, List.nil_append,
